@@ -412,6 +412,52 @@ theorem remove_defs_prefix_user_witness :
      run I ss (fun _ => 0) "B" ≠ run I (applyMask ss [false, true, true, true]) (fun _ => 0) "B") := by
   decide
 
+/-! ## subs -/
+
+/-- **Substituting a leaf behaves as a sequential program edit.**  If neither `x` nor any
+    symbol of `t` is assigned by the (ODE-free) statement list, then running the substituted
+    list equals running the original list in the environment where `x` has the value of `t`. -/
+theorem subs_leaf_sound {α : Type} (I : Interp α) (x : Sym) (t : Expr) (ss : List Stmt) :
+    (∀ s ∈ ss, s.isOde = false ∧ x ∉ s.defs ∧ ∀ z ∈ t.syms, z ∉ s.defs) →
+    ∀ (ρ1 ρ2 : Env α), (∀ y, y ≠ x → ρ1 y = ρ2 y) → ρ2 x = eval I ρ1 t →
+      ∀ y, y ≠ x → run I (substStmts x t ss) ρ1 y = run I ss ρ2 y := by
+  induction ss with
+  | nil => intro _ ρ1 ρ2 h _ y hy; simpa [substStmts, run] using h y hy
+  | cons s ss ih =>
+    intro hall ρ1 ρ2 hag hx y hy
+    obtain ⟨hode, hxs, hts⟩ := hall s (by simp)
+    cases s with
+    | ode a r => simp [Stmt.isOde] at hode
+    | assign v e =>
+      have hvx : v ≠ x := by
+        intro h; exact hxs (by simp [Stmt.defs, h])
+      have hvx' : ¬ (v = x) := hvx
+      simp only [substStmts, List.map_cons, substStmt, if_neg hvx', run_cons, Stmt.exec]
+      have heq : eval I ρ1 (Expr.subst1 x t e) = eval I ρ2 e := by
+        rw [Expr.eval_subst1]
+        apply Expr.eval_congr
+        intro z _
+        unfold Env.set
+        by_cases hz : z = x
+        · simp [hz, hx]
+        · simp [hz]; exact hag z hz
+      apply ih (fun u hu => hall u (List.mem_cons_of_mem _ hu))
+      · intro z hz
+        unfold Env.set
+        by_cases hzv : z = v
+        · simp [hzv, heq]
+        · simp [hzv]; exact hag z hz
+      · have : x ≠ v := fun h => hvx h.symm
+        unfold Env.set
+        simp only [if_neg this]
+        rw [hx]
+        apply Expr.eval_congr
+        intro z hz
+        have : z ≠ v := by
+          intro h; exact hts z hz (by simp [Stmt.defs, h])
+        simp [this]
+      · exact hy
+
 /-! ## reassign / find_assignment_index -/
 
 /-- Once the last assignment has been replaced, no other assignment to `x`
